@@ -104,7 +104,10 @@ def apply(st: State, ev, observe_between=False):
     kind, name, v = ev
     obj = st.obj
     if kind == "read":
-        getattr(obj, name)
+        try:
+            getattr(obj, name)
+        except Exception as exc:  # noqa: BLE001 - judged in on_transition
+            return False, exc
         return True, None
     try:
         setattr(obj, name, value(name, v))
@@ -182,7 +185,10 @@ def observe(obj, order=0):
         names = ["nelec", "spinpol", "natom", "charge", "atcorenums", "atnums", "atcoords", "atmasses", "atgradient", "atfrozen"]
     out = {}
     for n in names:
-        out[n] = _a(getattr(obj, n))
+        try:
+            out[n] = _a(getattr(obj, n))
+        except Exception as exc:  # noqa: BLE001 - reading a property must never fail; reported by check_state
+            out[n] = f"RAISES {type(exc).__name__}"
     out["mo"] = obj.mo is not None
     return out
 
@@ -299,8 +305,8 @@ class Oracle:
     def lens(self, o):
         res = {}
         for n in PER_ATOM:
-            x = o[n]
-            if x is not None:
+            x = o.get(n)
+            if x is not None and not isinstance(x, str):
                 res[n] = x[1][0]
         return res
 
@@ -338,6 +344,11 @@ class Oracle:
                 f"[{hist_str(hist)}]: {k} = {o_blind[k]!r} without intermediate reads, {o_obs[k]!r} when every property is read after each step",
             )
         o = o_blind
+        raising = [k for k, v in o.items() if isinstance(v, str) and v.startswith("RAISES")]
+        if raising:
+            ctx.violation("read-raises", f"READ:reading-{raising[0]}-{o[raising[0]].replace(' ', '-')}", {"history": hist_str(hist), "hist": hist},
+                          f"[{hist_str(hist)}]: reading {raising[0]} raises {o[raising[0]][7:]} (the per-atom arrays are {self.lens({k: v for k, v in o.items() if not isinstance(v, str)})})")
+            return
         # I1
         if o["atcorenums"] is not None and o["nelec"] is not None:
             cores = np.frombuffer(o["atcorenums"][2], dtype=float)
@@ -403,6 +414,8 @@ class Oracle:
         ok, exc = after.log[-1]
         full = hist + (ev,)
         if kind == "read":
+            if not ok:
+                ctx.violation("read-raises", f"READ:reading-{name}-RAISES-{exc}", {"history": hist_str(full), "hist": full}, f"[{hist_str(full)}]: reading {name} raises {exc}")
             return
         o1 = observe(build(full).obj)
         # would the assignment break per-atom agreement?
